@@ -392,3 +392,32 @@ func init() {
 		panic(engineAbort{"unsupported", "json.Unmarshal into " + tn})
 	}
 }
+
+// ---- sort.Slice / sort.SliceStable / sort.SliceIsSorted (reflectlite.Swapper in the real library)
+
+func init() {
+	sortSlice := func(fr *frame, a []value) value {
+		xs, _ := a[0].(iface).v.([]value)
+		less := a[1]
+		lt := func(i, j int) bool { return truth(call(fr.i, fr, 0, less, []value{i, j})) }
+		// stable insertion sort by adjacent swaps (less is index-based, so elements must be in place)
+		for i := 1; i < len(xs); i++ {
+			for j := i; j > 0 && lt(j, j-1); j-- {
+				xs[j], xs[j-1] = xs[j-1], xs[j]
+			}
+		}
+		return nil
+	}
+	externals["sort.Slice"] = sortSlice
+	externals["sort.SliceStable"] = sortSlice
+	externals["sort.SliceIsSorted"] = func(fr *frame, a []value) value {
+		xs, _ := a[0].(iface).v.([]value)
+		less := a[1]
+		for i := len(xs) - 1; i > 0; i-- {
+			if truth(call(fr.i, fr, 0, less, []value{i, i - 1})) {
+				return false
+			}
+		}
+		return true
+	}
+}
